@@ -514,6 +514,38 @@ def case_grouped(ctx, i):
                               (signs.tolist(), np.real(np.diag(g.get_op('JW').to_ndarray())).tolist()), case)
         except Exception as e:
             ctx.violation('GroupedSite:charge_to_JW_signs-raises-%s' % type(e).__name__, traceback.format_exc()[-400:], case)
+    # kron() of local operators of the member sites: the plain tensor product (no Jordan-Wigner factors), grouped or not
+    try:
+        names_k = []
+        for s_ in sites:
+            cand = sorted(n_ for n_ in s_.opnames if n_ not in ('JW', ))
+            names_k.append(cand[int(rng.integers(len(cand)))])
+        ops_k = [s_.get_op(n_) for s_, n_ in zip(sites, names_k)]
+        dense_k = [o.to_ndarray() for o in ops_k]
+        exp_k = dense_k[0]
+        for d_ in dense_k[1:]:
+            exp_k = np.kron(exp_k, d_)
+        ctx.count('grouped.kron')
+        K = S.kron(*ops_k, group=False)
+        labs = ['p%d' % j for j in range(n)] + ['p%d*' % j for j in range(n)]
+        Kd = np.transpose(K.to_ndarray(), [K.get_leg_index(l_) for l_ in labs]).reshape(exp_k.shape)
+        if not (np.linalg.norm(Kd - exp_k) <= 1e-12):
+            ctx.violation('kron:ungrouped-differs-from-tensor-product', 'operators %r' % names_k, case)
+        Kg = S.kron(*ops_k, group=True)
+        if Kg.rank != 2 or tuple(Kg.get_leg_labels()) != ('(' + '.'.join('p%d' % j for j in range(n)) + ')', '(' + '.'.join('p%d*' % j for j in range(n)) + ')'):
+            ctx.violation('kron:grouped-labels', '%r' % (Kg.get_leg_labels(), ), case)
+        else:
+            Ks = Kg.split_legs()
+            Ksd = np.transpose(Ks.to_ndarray(), [Ks.get_leg_index(l_) for l_ in labs]).reshape(exp_k.shape)
+            if not (np.linalg.norm(Ksd - exp_k) <= 1e-12):
+                ctx.violation('kron:grouped-differs-from-tensor-product', 'operators %r' % names_k, case)
+            if Kg.get_leg(0).qconj != 1 or Kg.get_leg(1).qconj != -1:
+                ctx.violation('kron:grouped-leg-directions', '%r %r' % (Kg.get_leg(0).qconj, Kg.get_leg(1).qconj), case)
+    except Exception as e:
+        tb = traceback.format_exc()
+        if '/tenpy/' not in tb:
+            raise
+        ctx.violation('kron:raises-%s' % type(e).__name__, tb[-500:], case)
     ctx.sig(('grouped', repr(chosen), policy), nontrivial=not homog)
     if i % 40 == 0:
         ctx.sample(case)
